@@ -351,6 +351,10 @@ pub fn run(ctx: &mut Ctx) {
             c!(format!("fold-{fname}"), "A=u32", fold::<N, u32>(form));
             c!(format!("fold-{fname}"), "A=Tr24", fold::<N, Tr<5>>(form));
             // unusual representations: over-aligned (32 / 64), 3-byte
+            c!(format!("generate-{fname}"), "U=Nb", generate::<N, Nb>(form));
+            c!(format!("map-{fname}"), "A=Nb,U=Nb", map::<N, Nb, Nb>(form));
+            c!(format!("map-{fname}"), "A=u32,U=Nb", map::<N, u32, Nb>(form));
+            c!(format!("fold-{fname}"), "A=Nb", fold::<N, Nb>(form));
             c!(format!("generate-{fname}"), "U=TrA32", generate::<N, TrA>(form));
             c!(format!("generate-{fname}"), "U=a64", generate::<N, A64>(form));
             c!(format!("generate-{fname}"), "U=b3", generate::<N, B3>(form));
@@ -361,6 +365,11 @@ pub fn run(ctx: &mut Ctx) {
             c!(format!("fold-{fname}"), "A=TrA32", fold::<N, TrA>(form));
             c!(format!("fold-{fname}"), "A=b3", fold::<N, B3>(form));
         }
+        c!("default", "U=Nb", default_like::<N, Nb>(false));
+        c!("default_boxed", "U=Nb", default_like::<N, Nb>(true));
+        c!("clone", "A=Nb", clone::<N, Nb>(false));
+        c!("clone-box", "A=Nb", clone::<N, Nb>(true));
+        c!("clone_from", "A=Nb", clone_from::<N, Nb>(false));
         c!("default", "U=TrA32", default_like::<N, TrA>(false));
         c!("default_boxed", "U=TrA32", default_like::<N, TrA>(true));
         c!("clone", "A=TrA32", clone::<N, TrA>(false));
@@ -403,6 +412,7 @@ pub fn run(ctx: &mut Ctx) {
                 c!($label, "A=Nd,B=Nd,U=Nd", zip_wrapped(|| $fname::<N, Nd, Nd, Nd>()));
                 c!($label, "A=Zn,B=u32,U=Zn", zip_wrapped(|| $fname::<N, Zn, u32, Zn>()));
                 c!($label, "A=Nd,B=Tr4,U=Nd", zip_wrapped(|| $fname::<N, Nd, Tr<0>, Nd>()));
+                c!($label, "A=Nb,B=Nb,U=Nb", zip_wrapped(|| $fname::<N, Nb, Nb, Nb>()));
                 c!($label, "A=TrA32,B=b3,U=a64", zip_wrapped(|| $fname::<N, TrA, B3, A64>()));
                 c!($label, "A=b3,B=TrA32,U=TrA32", zip_wrapped(|| $fname::<N, B3, TrA, TrA>()));
             };
